@@ -282,4 +282,7 @@ func runC07(p *P, r *R) {
 	}
 	// R07.7 bytes never cross direction: the read buffer becomes the write buffer only when fully consumed (shared with C09 R09.9)
 	borrow(p, r, "C09", runC09, map[string]string{"R09.9": "R07.7"}, nil)
+	// R07.8 a stream's bytes on the connection are never interleaved with another writer's event: every event is
+	// written under the session's writing flag (shared with C18 R18.1 / R18.2)
+	borrow(p, r, "C18", runC18, map[string]string{"R18.1": "R07.8", "R18.2": "R07.8"}, nil)
 }
